@@ -35,22 +35,28 @@ where
     /// Create a new `Filter` with the given (unfiltered) initial values, stream
     /// of `VectorDiff` updates for those values, and filter.
     pub fn new(
-        mut values: Vector<VectorDiffContainerStreamElement<S>>,
+        values: Vector<VectorDiffContainerStreamElement<S>>,
         inner: S,
         filter: F,
     ) -> (Vector<VectorDiffContainerStreamElement<S>>, Self) {
         let original_len = values.len();
         let mut filtered_indices = VecDeque::new();
 
+        // Not `Vector::retain`: as of imbl 5.0 it moves items to the wrong slots
+        // (and reads unused ones) in vectors of more than 64 items whose first
+        // chunk doesn't start at its first slot, e.g. after a `pop_front`.
         let mut original_idx = 0;
-        values.retain(|val| {
-            let keep = filter(val);
-            if keep {
-                filtered_indices.push_back(original_idx);
-            }
-            original_idx += 1;
-            keep
-        });
+        let values: Vector<_> = values
+            .into_iter()
+            .filter(|val| {
+                let keep = filter(val);
+                if keep {
+                    filtered_indices.push_back(original_idx);
+                }
+                original_idx += 1;
+                keep
+            })
+            .collect();
 
         let inner = FilterImpl { inner, filtered_indices, original_len };
         (values, Self { inner, filter })
@@ -150,7 +156,7 @@ where
 {
     fn append_filter<F>(
         &mut self,
-        mut values: Vector<VectorDiffContainerStreamElement<S>>,
+        values: Vector<VectorDiffContainerStreamElement<S>>,
         f: &F,
     ) -> Option<Vector<VectorDiffContainerStreamElement<S>>>
     where
@@ -158,14 +164,18 @@ where
     {
         let mut original_idx = *self.original_len;
         *self.original_len += values.len();
-        values.retain(|value| {
-            let keep = f(value);
-            if keep {
-                self.filtered_indices.push_back(original_idx);
-            }
-            original_idx += 1;
-            keep
-        });
+        // Not `Vector::retain`, see `Filter::new`.
+        let values: Vector<_> = values
+            .into_iter()
+            .filter(|value| {
+                let keep = f(value);
+                if keep {
+                    self.filtered_indices.push_back(original_idx);
+                }
+                original_idx += 1;
+                keep
+            })
+            .collect();
 
         values.is_empty().not().then_some(values)
     }
